@@ -2,6 +2,7 @@ import Driver.Util
 import ClairModel.Model.FeedSeverity
 import ClairModel.Model.FeedCommon
 import ClairModel.Model.FeedFlat
+import ClairModel.Model.FeedOval
 import ClairModel.Gen.Severity
 import ClairModel.Gen.Feeds
 
@@ -135,6 +136,104 @@ def pRate : P String := do
   | some v => pure (toString v)
   | none => pure "err"
 
+partial def pCriteria : P Criteria := do
+  let subs ← many pCriteria
+  let leaves ← many (do
+    let testRef ← str
+    let comment ← str
+    pure ({ testRef, comment } : Criterion))
+  pure (.node subs leaves)
+
+def pOpt {α : Type} (p : P α) : P (Option α) := do
+  let n ← nat
+  if n == 0 then pure none else (do let x ← p; pure (some x))
+
+def pRoot : P OvalRoot := do
+  let tests ← many (do
+    let id ← str
+    let kind ← str
+    let objRefs ← many str
+    let stateRefs ← many str
+    pure (id, ({ kind, objRefs, stateRefs } : OvalTest)))
+  let objects ← many (do
+    let id ← str
+    let kind ← str
+    let name ← str
+    let varRef ← str
+    pure (id, ({ kind, name, varRef } : OvalObject)))
+  let states ← many (do
+    let id ← str
+    let kind ← str
+    let evr ← pOpt str
+    let arch ← pOpt (do
+      let op ← nat
+      let body ← str
+      pure ({ op, body } : OvalArch))
+    pure (id, ({ kind, evr, arch } : OvalState)))
+  let variables ← many (do
+    let id ← str
+    let vals ← many str
+    pure (id, vals))
+  pure { tests, objects, states, variables }
+
+def pDef : P OvalDef := do
+  let id ← str
+  let title ← str
+  let desc ← str
+  let severity ← str
+  let refUrls ← many str
+  let advRefs ← many str
+  let bugs ← many str
+  let cveHrefs ← many str
+  let platforms ← many (many str)
+  let cpes ← many (do
+    let c ← str
+    let ok ← nat
+    pure (c, ok != 0))
+  let criteria ← pCriteria
+  pure { id, title, desc, severity, refUrls, advRefs, bugs, cveHrefs, platforms, cpes, criteria }
+
+def showOpt (r : Option (List Vuln)) : String :=
+  match r with
+  | none => "err"
+  | some vs => showVulns false vs
+
+def pOval : P String := do
+  let flavor ← tok
+  let updater ← str
+  match flavor with
+  | "oracle" =>
+    let plats ← many (do
+      let p ← str
+      let d ← str
+      pure (p, d))
+    let root ← pRoot
+    let defs ← many pDef
+    pure (showOpt (rpmDefsToVulns root (protoOracle (normalize codeOracleMode codeOracle codeOracleDefault) updater plats) defs))
+  | "suse" =>
+    let dist ← str
+    let root ← pRoot
+    let defs ← many pDef
+    pure (showOpt (rpmDefsToVulns root (protoSingle (normalize codeSuseMode codeSuse codeSuseDefault) updater dist) defs))
+  | "photon" =>
+    let dist ← str
+    let root ← pRoot
+    let defs ← many pDef
+    pure (showOpt (rpmDefsToVulns root (protoSingle (normalize codePhotonMode codePhoton codePhotonDefault) updater dist) defs))
+  | "rhel" =>
+    let dist ← str
+    let ign ← nat
+    let root ← pRoot
+    let defs ← many pDef
+    pure (showOpt (rpmDefsToVulns root
+      (protoRhel (normalize codeRhelMode codeRhel codeRhelDefault) updater dist (ign != 0) ovalDefUnaffected ovalDefNone ovalDefCve) defs))
+  | "ubuntu" =>
+    let dist ← str
+    let root ← pRoot
+    let defs ← many pDef
+    pure (showOpt (dpkgDefsToVulns root (protoUbuntu (normalize codeUbuntuMode codeUbuntu codeUbuntuDefault) updater dist) defs))
+  | _ => failure
+
 def dispatch : P String := do
   let op ← tok
   match op with
@@ -143,6 +242,7 @@ def dispatch : P String := do
   | "secdb" => pSecdb
   | "debian" => pDebian
   | "aws" => pAws
+  | "oval" => pOval
   | "reset" => pure "ok"
   | _ => failure
 
